@@ -5,6 +5,7 @@
 * `BaseStep._get_status`
 * `StreamFlowExecutor._wait_outputs`: the statuses on which the executor cancels; `run`: the statuses on which it raises;
   `_cancel`: whether it terminates the steps (calls `self.close()`) or only marks the executor closed
+* `LoopCombinatorStep.run`: whether a FAILED / CANCELLED loop input stops the re-reading of terminated ports
 """
 from __future__ import annotations
 
@@ -141,6 +142,27 @@ def generate(repo: str) -> tuple[str, str]:
     close = parse_function(ex_py, "close", cls="StreamFlowExecutor")
     if "terminate(Status.CANCELLED)" not in ast.unparse(close):
         raise TranslateError("close: does not terminate the steps with Status.CANCELLED")
+    # ---- LoopCombinatorStep.run: does a FAILED / CANCELLED loop input stop the re-reading of terminated ports? ----
+    lrun = parse_function(step_py, "run", cls="LoopCombinatorStep")
+    src = ast.unparse(lrun)
+    clears = "iteration_termination_checklist.get(task_name).clear()" in src and "token.value != Status.COMPLETED" in src
+    if not clears:
+        raise TranslateError("LoopCombinatorStep.run: the `if token.value != Status.COMPLETED: checklist.clear()` step was not found")
+    fail_flags = [n for n in ast.walk(lrun) if isinstance(n, ast.If) and isinstance(n.test, ast.Compare)
+                  and ast.unparse(n.test.left) == "token.value" and isinstance(n.test.ops[0], ast.In)
+                  and any(isinstance(b, ast.Assign) and ast.unparse(b.value) == "True" for b in n.body)]
+    loop_stops = False
+    if fail_flags:
+        flag_if = fail_flags[0]
+        on = {_status_of(e, nums, "LoopCombinatorStep failure test") for e in flag_if.test.comparators[0].elts}
+        flag_name = next(ast.unparse(b.targets[0]) for b in flag_if.body if isinstance(b, ast.Assign) and ast.unparse(b.value) == "True")
+        cancels = any("cancel()" in ast.unparse(b) for b in flag_if.body)
+        rearm_uses = any(isinstance(n, ast.BoolOp) and isinstance(n.op, ast.Or) and any(ast.unparse(v) == flag_name for v in n.values)
+                         for n in ast.walk(lrun))
+        if on != {nums["FAILED"], nums["CANCELLED"]} or not cancels or not rearm_uses:
+            raise TranslateError("LoopCombinatorStep.run: a failure flag exists but not in the expected shape "
+                                 "(FAILED/CANCELLED test, cancel of the terminated ports' reads, `failed or` in the re-read test)")
+        loop_stops = True
     text = f"""/-! GENERATED by harness/sfv/translate/stepguards.py from streamflow/core/workflow.py, streamflow/workflow/step.py and
 streamflow/workflow/executor.py — do not edit. Statuses are their `Status` numbers. -/
 namespace SFV.Gen
@@ -167,6 +189,9 @@ def cancelOn (c : Nat) : Bool := {cancel_on}
 def finalBad (c : Nat) : Bool := {final_bad}
 /-- `_cancel` terminates the steps (calls `self.close()`) instead of only setting `_closed` -/
 def cancelCallsClose : Bool := {'true' if calls_close else 'false'}
+/-- `LoopCombinatorStep.run` stops re-reading terminated ports after a FAILED / CANCELLED termination on a loop input
+    (flag set on exactly these statuses, pending reads of terminated ports cancelled, flag in the re-read test) -/
+def loopStopsAfterFailure : Bool := {'true' if loop_stops else 'false'}
 
 end SFV.Gen
 """
